@@ -41,6 +41,10 @@ def regenerate_gen():
         rc2, out2, err2 = sh([sys.executable, os.path.join(VERIF, 'tools', 'synctable.py'), os.path.join(COQ, 'gen')], timeout=300)
         st_ok = rc2 == 0
         msg += '\n' + out2.strip() + err2.strip()
+    if os.path.exists(os.path.join(VERIF, 'tools', 'seqlockorders.py')):
+        rc3, out3, err3 = sh([sys.executable, os.path.join(VERIF, 'tools', 'seqlockorders.py'), os.path.join(COQ, 'gen')], timeout=60)
+        st_ok = st_ok and rc3 == 0
+        msg += '\n' + out3.strip() + err3.strip()
     return rc == 0 and st_ok, msg + err.strip()
 
 def coq_files():
@@ -65,12 +69,12 @@ def coq_build(targets, timeout=3000):
     rc, out, err = sh(['make', '-k', '-j%d' % NPROC] + targets, cwd=COQ, timeout=timeout)
     return rc == 0, out + err
 
-def coq_property(pid, timeout=3000):
-    """Build Properties_<pid>.vo; return dict with theorems, proved, assumptions, errors"""
-    rel = 'Properties/Properties_%s.v' % pid
-    res = {'file': rel, 'theorems': [], 'proved': [], 'failed': [], 'assumptions': {}, 'log': '', 'forbidden': []}
-    src = open(os.path.join(COQ, rel)).read()
-    res['theorems'] = re.findall(r'^\s*(?:Theorem|Corollary)\s+([A-Za-z0-9_\']+)', src, re.M)
+def coq_property(pid, timeout=3000, files=None):
+    """Build Properties_<pid>.vo (and the further property files of this property); return dict with theorems, proved,
+    assumptions, errors.  Each property file is built by its own make call so that the Print Assumptions blocks in the
+    output can be attributed to its theorems in order."""
+    rels = ['Properties/%s.v' % f for f in (files or ['Properties_%s' % pid])]
+    res = {'file': rels[0], 'files': rels, 'theorems': [], 'proved': [], 'failed': [], 'assumptions': {}, 'log': '', 'forbidden': [], 'build_s': 0.0}
     # forbidden constructs anywhere in the development (comments stripped)
     # every committed file of the development is scanned (untracked files are work in progress and are not
     # part of any build target until they are committed and imported)
@@ -83,32 +87,38 @@ def coq_property(pid, timeout=3000):
         txt = re.sub(r'\(\*.*?\*\)', '', txt, flags=re.S)
         for m in FORBIDDEN.finditer(txt):
             res['forbidden'].append('%s: %s' % (f, m.group(0)))
-    vo = rel[:-2] + '.vo'
-    try:
-        os.remove(os.path.join(COQ, vo))
-    except FileNotFoundError:
-        pass
-    t0 = time.time()
-    ok, lg = coq_build([vo], timeout)
-    res['log'] = lg[-6000:]
-    res['build_s'] = round(time.time() - t0, 1)
-    if ok and os.path.exists(os.path.join(COQ, vo)):
-        res['proved'] = list(res['theorems'])
-        # Print Assumptions output: "Closed under the global context" or "Axioms:" blocks, in order
-        blocks = re.split(r'(?=Closed under the global context|Axioms:)', lg)
-        blocks = [b for b in blocks if b.startswith('Closed under') or b.startswith('Axioms:')]
-        for name, b in zip(res['theorems'], blocks):
-            if b.startswith('Closed'):
-                res['assumptions'][name] = 'Closed under the global context'
-            else:
-                ax = re.findall(r'^([A-Za-z0-9_\.\']+)\s*:', b, re.M)
-                res['assumptions'][name] = 'Axioms: ' + ', '.join(ax)
-    else:
-        # which theorems of the property file fail?  The property file only contains `exact lemma`, so a
-        # failure is a failing dependency: report the first error
-        m = re.search(r'File "\./([^"]+)", line (\d+).*?\n(Error:.*?)(?:\n\n|\Z)', lg, re.S)
-        res['failed'] = list(res['theorems'])
-        res['first_error'] = (m.group(1) + ':' + m.group(2) + ' ' + m.group(3)[:600]) if m else lg[-800:]
+    for rel in rels:
+        src = open(os.path.join(COQ, rel)).read()
+        ths = re.findall(r'^\s*(?:Theorem|Corollary)\s+([A-Za-z0-9_\']+)', src, re.M)
+        res['theorems'] += ths
+        vo = rel[:-2] + '.vo'
+        try:
+            os.remove(os.path.join(COQ, vo))
+        except FileNotFoundError:
+            pass
+        t0 = time.time()
+        ok, lg = coq_build([vo], timeout)
+        res['log'] += lg[-6000:]
+        res['build_s'] = round(res['build_s'] + time.time() - t0, 1)
+        if ok and os.path.exists(os.path.join(COQ, vo)):
+            res['proved'] += ths
+            # Print Assumptions output: "Closed under the global context" or "Axioms:" blocks, in order
+            blocks = re.split(r'(?=Closed under the global context|Axioms:)', lg)
+            blocks = [b for b in blocks if b.startswith('Closed under') or b.startswith('Axioms:')]
+            blocks = blocks[-len(ths):] if ths else []
+            for name, b in zip(ths, blocks):
+                if b.startswith('Closed'):
+                    res['assumptions'][name] = 'Closed under the global context'
+                else:
+                    ax = re.findall(r'^([A-Za-z0-9_\.\']+)\s*:', b, re.M)
+                    res['assumptions'][name] = 'Axioms: ' + ', '.join(ax)
+        else:
+            # which theorems of the property file fail?  The property file only contains `exact lemma`, so a
+            # failure is a failing dependency: report the first error
+            m = re.search(r'File "\./([^"]+)", line (\d+).*?\n(Error:.*?)(?:\n\n|\Z)', lg, re.S)
+            res['failed'] += ths
+            if 'first_error' not in res:
+                res['first_error'] = (m.group(1) + ':' + m.group(2) + ' ' + m.group(3)[:600]) if m else lg[-800:]
     return res
 
 # ------------------------------------------------------------------------------------------------
